@@ -3,9 +3,10 @@
 # or: tools/mut.sh <PROP> --patch <patchfile> [tier]
 set -u
 PROP=$1; shift
+B=${MUT_BASE:-/repo}
 D=$(mktemp -d /tmp/verif-mut.XXXXXX)
 mkdir -p $D/src $D/include
-cp /repo/config.h $D/; cp /repo/src/*.c /repo/src/*.h /repo/src/Makefile.am $D/src/ 2>/dev/null; cp -r /repo/include/* $D/include/
+cp $B/config.h $D/; cp $B/src/*.c $B/src/*.h $B/src/Makefile.am $D/src/ 2>/dev/null; cp -r $B/include/* $D/include/
 if [ "$1" = "--patch" ]; then
   (cd $D && patch -p1 -s < "$2") || { echo "patch failed"; rm -rf $D; exit 3; }
   TIER=${3:-quick}
